@@ -53,7 +53,7 @@ func (a *Act) call(st *State, x *ssa.Call) Val {
 
 // callCommon dispatches a call. fnv is the evaluated function value / receiver interface value.
 func (a *Act) callCommon(st *State, c *ssa.CallCommon, args []Val, fnv *Val, pos token.Pos, instr *ssa.Call) Val {
-	_ = a.vc
+	a.curCall = c
 	sig := c.Signature()
 	resT := types.Type(sig.Results())
 	if sig.Results().Len() == 1 {
@@ -84,6 +84,10 @@ func (a *Act) callCommon(st *State, c *ssa.CallCommon, args []Val, fnv *Val, pos
 			return a.callStatic(st, fnv.Fn.Fn, fnv.Fn.Bindings, args, sig, resT, pos)
 		}
 		if fnv.Fn.Origin != "" {
+			// calling a function-valued field: nil would panic
+			if fnv.S != "" && fnv.Sort == sInt {
+				a.vc.oblige(a.oblName("nopanic-nilfunc"), "nopanic", a.props, a.pos(pos), st.guard, not(eq(fnv.S, "0")), "call of nil function value "+shortName(fnv.Fn.Origin))
+			}
 			if con := a.eng.contracts[fnv.Fn.Origin]; con != nil {
 				return a.applyContract(st, con, nil, sig, args, resT, pos, fnv.Fn.Origin)
 			}
